@@ -67,8 +67,7 @@ NOT_APPLICABLE = {
 
 # properties whose check is planned in DESIGN.md but not built yet in this revision
 PENDING = {k: "check not built yet in this revision of /verif (planned, DESIGN.md §4); not claimed until it exists"
-           for k in ["C07", "C08", "C12", "C14", "C16",
-                     "C18"]}
+           for k in ["C07", "C08", "C12", "C14", "C16"]}
 
 
 def _add(p):
@@ -459,4 +458,37 @@ _add(Prop(
           "tracks P_n for any history. Floor yields the frame at floor(P_n); linear is the f64 straight-line blend and never "
           "leaves the interval of its two frames; ratio 1 is transparent; a finite source at ratio r yields ceil((R+1)/r) "
           "outputs or one more; mul_hz pulls its control signal once per output.",
+))
+
+
+_add(Prop(
+    "C18", "c18_sinc", "c18",
+    functions=["dasp_interpolate::sinc::Sinc::{new, interpolate, next_source_frame, reset, depth}",
+               "dasp_ring_buffer::Fixed::{push, index, set_first, iter_mut, len} underneath",
+               "dasp_signal::interpolate::Converter::next driving Sinc at ratio 1"],
+    bounds="depth 1, 2, 3; ANY ring offset and any number (0..=depth+1) of pushed frames, i.e. every priming stage; frames "
+           "f64 on the 2^-15 grid in [-1,1] ([i16;2] for the integer-format harness); index safety and reset at any x in "
+           "[0,1); tap/weight structure at x in {0, 0.25} with sin/cos replaced by power-of-two stand-ins, from the states reached "
+           "by 0, d, 2d+1 pushes (transparency: 0, 1, d, d+1, 2d+1 pushes) into a fresh ring (symbolic frame values); transparency at x = 0 "
+           "(ratio exactly 1) with libm's sin/cos values tabulated at the kernel's concrete arguments, directly and through "
+           "the Converter (depth+3 outputs)",
+    outside="NOT decided: linearity within rounding, finiteness for finite input, the 1 % constant-reproduction clause for "
+            "depth >= 4 - all need the numeric values of sin/cos at symbolic arguments, which CBMC over-approximates as "
+            "'any value in [-1,1]'; depth > 3",
+    stubs=["dasp_interpolate::sinc::ops::f64::{sin,cos} -> table of host-libm values at the concrete arguments for x=0 "
+           "(transparent_at_ratio_one, converter_delays_by_depth); -> linear stand-ins (taps_and_weights)"],
+    trusted=["host libm sin/cos values in harness/src/c18_table.in (generated by harness/gen/gen_c18_table.py)"],
+    rules=[
+        {"match": r"new_requires_even_length", "expect": "fail"},
+        # index safety runs over CBMC's own sin/cos models (any value in [-1,1] per call): sin(a)/a can then be
+        # infinite for tiny a, so Kani's float NaN/overflow checks are switched off for these harnesses; rustc's own
+        # `attempt to subtract with overflow` and bounds assertions - the subject - stay on
+        {"match": r"d3::taps_and_weights$", "flags": ["--no-overflow-checks"], "tier": "thorough", "timeout": 3000},
+        {"match": r"::(index_safety|taps_and_weights)$", "flags": ["--no-overflow-checks"]},
+    ],
+    design_ref="DESIGN.md §4 C18",
+    claim="For depth <= 3 and every priming stage the solver shows the kernel never under/overflows an index or reads out of "
+          "range, reads exactly the taps idx-n and idx+1+n with the windowed-sinc weights (structure, with stand-in sin/cos), "
+          "is silent after reset, reproduces the frame at idx to 1e-12 on the sample grid with libm's tabulated values, and "
+          "through the converter at ratio 1 delivers source frame k-depth at output k.",
 ))
